@@ -8,7 +8,7 @@ VB = 2 ** 20        # |threshold| bound
 LO16, HI16 = -32768, 32767
 
 
-def sym_env(ctx, spec, vbound=VB):
+def sym_env(ctx, spec, vbound=VB, validated=True):
     env = {}
     for p in sorted(pl.params(spec)):
         kind = p.split("_")[0]
@@ -25,7 +25,44 @@ def sym_env(ctx, spec, vbound=VB):
     for lid, (lo, hi) in pl.leaves(spec).items():
         if isinstance(lo, str) or isinstance(hi, str):
             ctx.assume(S.term(pl.P(env, lo)) <= S.term(pl.P(env, hi)))
+    # "validated model" is part of every property that uses this family, and validity can depend on a symbolic SIGN: a named compound that
+    # occurs under two negation sites is negated identically for some signs of the nodes in between and differently for others (negation keeps
+    # the explicit id, so the model then holds two definitions under one id and errors() rejects it).  Sign combinations for which the
+    # repository's own errors() rejects the model are excluded from the symbolic environment.
+    sp, bad = _invalid_sign_combos(spec) if validated else ([], [])
+    for combo in bad:
+        ctx.assume(z3.Not(z3.And([env[p].e == c for p, c in zip(sp, combo)])))
     return env
+
+
+_SIGN_CACHE = {}
+
+
+def _invalid_sign_combos(spec):
+    import itertools
+    import json
+    key = json.dumps(spec, sort_keys=True, default=str)
+    if key in _SIGN_CACHE:
+        return _SIGN_CACHE[key]
+    sp = sorted(p for p in pl.params(spec) if p.split("_")[0] == "s")
+    bad = []
+    if sp and len(sp) <= 5:
+        from . import env as E
+        ns = E.load_repo()
+        base = mid_env(spec)
+        for combo in itertools.product((1, -1), repeat=len(sp)):
+            e = dict(base)
+            e.update(zip(sp, combo))
+            try:
+                ok = pl.build(ns, spec, e).errors() == []
+            except Exception:   # noqa  (a constructor problem is the calling check's business)
+                ok = True
+            if not ok:
+                bad.append(combo)
+        if len(bad) == 2 ** len(sp):
+            bad = []          # never valid: the calling check skips the instantiation on its own representative
+    _SIGN_CACHE[key] = (sp, bad)
+    return sp, bad
 
 
 def leaf_syms(ctx, spec, env, prefix="x_", inbox=True):
